@@ -31,10 +31,10 @@ GENERIC_CENTRES = [[1, 2, 3], [-3, 1, -2], [2, -3, 1], [0, 0, 1], [-1, 0, 0], [3
 
 
 # --------------------------------------------------------------------------- TLC: models
-def lazy_cfg(observed, maxpre, maxacc, hist, invs):
+def lazy_cfg(mech, maxpre, maxacc, hist, invs):
     return (
-        "SPECIFICATION Spec\nCONSTANTS\n Observed = %s\n MaxPre = %d\n MaxAcc = %d\n WithHist = %s\n"
-        % ("TRUE" if observed else "FALSE", maxpre, maxacc, "TRUE" if hist else "FALSE")
+        "SPECIFICATION Spec\nCONSTANTS\n MechName = \"%s\"\n MaxPre = %d\n MaxAcc = %d\n WithHist = %s\n"
+        % (mech, maxpre, maxacc, "TRUE" if hist else "FALSE")
         + "".join("INVARIANT %s\n" % i for i in invs)
         + "CHECK_DEADLOCK FALSE\n"
     )
@@ -61,18 +61,22 @@ def model_checks(ctx, thorough):
     if r.violated != "ScheduleIndependent":
         raise Machinery("LatScan does not distinguish the racy scan: %r" % r)
     ctx.note("latscan_racy_counterexample_found", True)
-    # histories: the intended mechanism meets the property on every history ...
-    ctx.tlc_ok(
-        "SliceLazy",
-        lazy_cfg(False, 1, 1, False, ["TypeOK", "AccessOK", "NoWrongValueStored", "StoreClosed"]),
-        what="SliceLazy(Mech_intended): every Access on every result of every history is ok",
-        timeout=1500,
-    )
-    # ... and the mechanism as read does not: TLC yields the failing histories
-    r = ctx.tlc("SliceLazy", lazy_cfg(True, 1, 1, False, ["TypeOK", "AccessOK"]), what="SliceLazy(Mech_observed): counterexample expected")
-    ctx.note("mech_observed_violates", r.violated)
-    if r.violated not in ("AccessOK", None):
-        raise Machinery("SliceLazy(Mech_observed): unexpected outcome %r" % r)
+    # histories: the intended mechanism and the code as it is now meet the property on every history ...
+    for mech in ("intended", "observed"):
+        ctx.tlc_ok(
+            "SliceLazy",
+            lazy_cfg(mech, 1, 1, False, ["TypeOK", "AccessOK", "NoWrongValueStored", "StoreClosed"]),
+            what="SliceLazy(Mech_%s): every Access on every result of every history is ok" % mech,
+            timeout=1500,
+        )
+    # ... the mechanism as first read, and each single reverted fix, do not: TLC must keep refuting them
+    refuted = {}
+    for mech, inv in (("prefix", "AccessOK"), ("rev_8ad0ac60", "AccessOK"), ("rev_7638a0fd", "NoWrongValueStored")):
+        r = ctx.tlc("SliceLazy", lazy_cfg(mech, 1, 1, False, ["TypeOK", inv]), what="SliceLazy(%s): counterexample to %s required" % (mech, inv))
+        if r.violated != inv:
+            raise Machinery("SliceLazy(%s) is not refuted (%s expected to fail): %r" % (mech, inv, r))
+        refuted[mech] = r.violated
+    ctx.note("mechanism_variants_refuted", refuted)
 
 
 def gen_index_cases(ctx, maxlen):
@@ -98,7 +102,7 @@ def gen_behaviours(ctx, maxpre, maxacc, simulate=None, seed=0):
         kw = {"simulate": "num=%d" % simulate, "depth": maxpre + maxacc + 3, "seed": seed + 1, "workers": 1}
     r = ctx.tlc_ok(
         "SliceLazy",
-        lazy_cfg(True, maxpre, maxacc, True, ["TypeOK", "Emit"]),
+        lazy_cfg("observed", maxpre, maxacc, True, ["TypeOK", "Emit"]),
         what="behaviours Materialise^<=%d ; Slice ; Access^<=%d with predicted outcomes%s" % (maxpre, maxacc, " (simulation)" if simulate else " (all)"),
         count=not simulate,
         timeout=2500,
